@@ -1,32 +1,11 @@
 /- L0 facts about the generated BollingerBands (any `[Scalar F]`): a StandardDeviation plus two
    parameters; every structural fact is inherited from the component. -/
+import TaRs.Lemmas.Core.BollingerBands
 import TaRs.Gen.BollingerBands
 import TaRs.Lemmas.StandardDeviation
 namespace TaRs.Gen.BollingerBands
 open TaRs TaRs.Rs
 variable {F : Type} [Scalar F]
-
-/-- the state `new(period, multiplier)` builds -/
-def fresh (p : Nat) (k : F) : BollingerBands F :=
-  { period := p, multiplier := k, sd := StandardDeviation.fresh p }
-
-structure WF (s : BollingerBands F) : Prop where
-  sd : StandardDeviation.WF s.sd
-  per : s.sd.period = s.period
-
-theorem new_eq (p : Nat) (k : F) :
-    (new p k : Res (BollingerBands F)) =
-      if p = 0 then .err .InvalidParameter
-      else if p * 8 ≤ isizeMax then .ok (fresh p k) else .panic := by
-  unfold new
-  rw [StandardDeviation.new_eq]
-  by_cases h0 : p = 0
-  · simp [h0, bind, Res.bind]
-  · by_cases h1 : p * 8 ≤ isizeMax <;> simp [h0, h1, bind, Res.bind, fresh]
-
-theorem fresh_wf (p : Nat) (k : F) (hp : 0 < p) (h8 : p * 8 ≤ isizeMax) :
-    WF (fresh p k : BollingerBands F) :=
-  ⟨StandardDeviation.fresh_wf p hp h8, rfl⟩
 
 /-- BB = SD plus `mean ± multiplier·sd` (the mean is the SD's own running mean, read AFTER
     the update) -/
@@ -53,9 +32,5 @@ theorem next_total (s : BollingerBands F) (x : F) (h : WF s) :
 theorem nextBar_eq (s : BollingerBands F) (b : Bar F) : s.nextBar b = s.next b.close := by
   unfold nextBar
   cases h : s.next b.close <;> simp [h]
-
-theorem period_fn_eq (s : BollingerBands F) : s.period_fn = s.period := rfl
-
-theorem multiplier_fn_eq (s : BollingerBands F) : s.multiplier_fn = s.multiplier := rfl
 
 end TaRs.Gen.BollingerBands
